@@ -132,6 +132,15 @@ class ExternalOptimizer(Optimizer):
                 if exception is not None:
                     raise exception
 
+                # An optimizer process that crashed or was killed must not be
+                # reported as a normal completion:
+                if process.returncode != 0:
+                    msg = (
+                        "The external optimizer terminated abnormally, "
+                        f"exit status: {process.returncode}"
+                    )
+                    raise RuntimeError(msg)
+
     @property
     def allow_nan(self) -> bool:
         """Whether NaN is allowed.
